@@ -8,7 +8,8 @@ spec = {
               # optional (C06/C17 streams): "mem_out": bool — an in-memory PythonNode product `mem<id>`; "mem_in": [producer id…] —
               # in-memory dependencies on those products; "pyhash_deps": [node…] ⊆ deps — declared as PythonNode(value=<content of
               # data/n<node>.txt at import>, hash=True) instead of a path node; "gen_marks": [marker…] on the child of a generator;
-              # "gen_child_deps": [node…] — dependencies (path nodes) of that child
+              # "gen_child_deps": [node…] — dependencies (path nodes) of that child;
+              # "wrap": "top"|"mid"|"bottom" — position of a functools.wraps pass-through decorator in the decorator stack
               } ],
   "versions": {module: int},
   "inputs": {node: int}          # initial contents of non-product files
@@ -42,6 +43,14 @@ def F(t, i, src, ds):
     for d in ds:
         h = (h * 31 + ((d + 7) if d is not None else 3)) % M61
     return (((t * 1000003 + i) * 1000003 + (src or 0)) * 1000003 + h) % M61
+
+def passthrough(f):
+    """a decorator that wraps the function without changing it (functools.wraps keeps signature and metadata visible)"""
+    import functools
+    @functools.wraps(f)
+    def inner(*a, **k):
+        return f(*a, **k)
+    return inner
 
 def hv(n):
     """value of a hashed Python dependency = the integer held by data/n<n>.txt when the module is imported"""
@@ -381,7 +390,15 @@ def render_module(spec, m: int, src_value=None) -> str:
         if deco_kwargs or style in ("kwargs", "return") or t.get("force_decorator"):
             task_line = ["@task(" + ", ".join(deco_kwargs) + ")"]
         # optional spec field "marks_below": the marks are written BELOW @task(...) (applied first), which is equally legal
-        L.extend(task_line + mark_lines if t.get("marks_below") else mark_lines + task_line)
+        groups = [task_line, mark_lines] if t.get("marks_below") else [mark_lines, task_line]
+        groups = [g for g in groups if g]
+        # optional spec field "wrap": a functools.wraps pass-through decorator at the "top" of the stack, in the "mid"dle (between
+        # the markers and @task, whichever comes first) or at the "bottom" (directly above the def)
+        if t.get("wrap"):
+            at = {"top": 0, "mid": min(1, len(groups)), "bottom": len(groups)}[t["wrap"]]
+            groups.insert(at, ["@rt.passthrough"])
+        for grp in groups:
+            L.extend(grp)
         params += late_params
         if t.get("hashed") or dir_names or late_params:
             params.insert(0, "*")                    # keyword-only: parameters without defaults may follow ones with defaults
